@@ -429,7 +429,11 @@ class TDMProgram(Program):
 
         if self.space_unrolled_circuit is not None:
             if self._num_added_subsystems > 0:
-                self._delete_subsystems(self.register[-self._num_added_subsystems :])
+                # remove the subsystems added by the space-unrolling altogether (rather than
+                # marking them as deleted) so that the register is exactly as it was before
+                for r in self.register[-self._num_added_subsystems :]:
+                    del self.reg_refs[r.ind]
+                    self.unused_indices.discard(r.ind)
                 self.init_num_subsystems -= self._num_added_subsystems
                 self._num_added_subsystems = 0
 
